@@ -92,7 +92,7 @@ def call_traced(thunk, ws=None):
         names.add(_h5name(ws))
     mine = [c for c in t.calls if ws is None or c["ws"] == id(ws)]
     ents = [e for e in t.entries if ws is None or os.path.realpath(e["hfile"]) in names]
-    return {"calls": [[c["fn"], c["mode"], c["file"], c["line"], c["handle"], c["out"]] for c in mine],
+    return {"calls": [[c["fn"], c["mode"], c["file"], c["line"], c["handle"], c["out"], c["repack"]] for c in mine],
             "entries": [[e["fn"], e["hmode"], e["out"]] for e in ents],
             "foreign_calls": len(t.calls) - len(mine), "foreign_entries": len(t.entries) - len(ents),
             "exc": exc, "msg": msg}
@@ -189,3 +189,9 @@ def reflect(work):
                 mros[lab] = [k.__name__ for k in type(o).__mro__ if k.__module__.startswith("geoh5py")]
         ws.close()
     return {"entries": [list(e) for e in iofix.entry_points()], "mros": mros, "fixture_problems": log}
+
+
+def n_concatenators(ws):
+    from geoh5py.shared.concatenation import Concatenator
+
+    return sum(1 for r in ws._groups.values() if isinstance(r(), Concatenator))  # noqa: SLF001
